@@ -35,7 +35,7 @@ func (e *Executor) watchTasks(calls ...*Call) error {
 
 	ctx, cancel := context.WithCancel(context.Background())
 	for _, c := range calls {
-		c := c
+		c := copyCall(c)
 		// The context is handed over as an argument: the variable is
 		// replaced by the event loop below on every watch event
 		go func(ctx context.Context) {
@@ -94,7 +94,7 @@ func (e *Executor) watchTasks(calls ...*Call) error {
 				}
 
 				for _, c := range calls {
-					c := c
+					c := copyCall(c)
 					go func(ctx context.Context) {
 						t, err := e.GetTask(c)
 						if err != nil {
@@ -148,6 +148,12 @@ func (e *Executor) watchTasks(calls ...*Call) error {
 
 	<-make(chan struct{})
 	return nil
+}
+
+// copyCall returns a call that a goroutine can use on its own: resolving a
+// call writes the wildcard matches into its variables
+func copyCall(c *Call) *Call {
+	return &Call{Task: c.Task, Vars: c.Vars.DeepCopy(), Silent: c.Silent, Indirect: c.Indirect}
 }
 
 func isContextError(err error) bool {
@@ -224,7 +230,7 @@ func (e *Executor) registerWatchedDirs(w *fsnotify.Watcher, calls ...*Call) erro
 	}
 
 	for _, c := range calls {
-		if err := registerTaskDirs(c); err != nil {
+		if err := registerTaskDirs(copyCall(c)); err != nil {
 			return err
 		}
 	}
